@@ -931,6 +931,7 @@ class Edge:
     __slots__ = (
         "subject", "parent", "child", "called", "args", "ret", "applied", "pre_flat", "pre_fams", "post_flat",
         "post_fams", "snap", "clone_exc", "call_exc", "state_exc", "pattern", "script", "arity", "step", "parent_changed",
+        "rejected",
     )
 
     def __init__(self, **kw):
@@ -947,13 +948,14 @@ class Edge:
             "pattern": self.pattern,
             "step": self.step,
             "script": self.script,
+            "rejected_call_before": self.rejected,
         }
 
 
 def drive_edge(subject, parent, name: Optional[str], args: Optional[Dict[str, Any]] = None,
                prepare: Optional[Callable] = None, on_clone: Optional[Callable] = None,
                script: Optional[List[int]] = None, clone: bool = True, pattern: str = "A", step: int = 0,
-               pick: Optional[Callable] = None) -> Edge:
+               pick: Optional[Callable] = None, reject: Optional[Callable] = None) -> Edge:
     """Pattern A: ``child = parent.clone(); getattr(child, name)(**args)`` - the way architecture_mutate does it.
     ``pick(child) -> (name, args)`` chooses the method from the *clone's* advertised methods (as the HPO does).
     With clone=False the method is applied to ``parent`` itself (pattern B, informational)."""
@@ -974,6 +976,29 @@ def drive_edge(subject, parent, name: Optional[str], args: Optional[Dict[str, An
         e.called, e.args = name, dict(args or {})
         if name is None:
             return e
+    if reject is not None and clone:
+        # a caller replays a mutation with arguments that do not fit this module (wrong keyword, layer index that does not
+        # exist): the call raises, the caller catches it and keeps using the module. Only a rejected call that left the
+        # module's description untouched is followed by the real mutation on the same object; otherwise a fresh clone is used.
+        rj = reject(child)
+        if rj is not None:
+            try:
+                before_rj = state_key(flat_state(child)[0])
+                try:
+                    getattr(child, rj[0])(**rj[1])
+                    e.rejected = {"call": rj[0], "args": norm(rj[1]), "outcome": "accepted"}
+                except Exception as exc:
+                    reraise_watchdog(exc)
+                    e.rejected = {"call": rj[0], "args": norm(rj[1]), "outcome": "raised:" + type(exc).__name__}
+                if state_key(flat_state(child)[0]) != before_rj or not str(e.rejected["outcome"]).startswith("raised"):
+                    e.rejected["outcome"] += "+state_changed_or_accepted(fresh clone used)"
+                    child = parent.clone()
+                    e.child = child
+            except Exception as exc:
+                reraise_watchdog(exc)
+                e.rejected = {"call": rj[0], "outcome": "harness:" + type(exc).__name__}
+                child = parent.clone()
+                e.child = child
     if prepare is not None:
         e.snap = prepare(child)
     try:
@@ -1186,7 +1211,7 @@ def bfs(subject: Subject, on_edge: Callable[[Edge], None], prepare=None, on_clon
 def random_walk(subject: Subject, steps: int, seed: int, on_edge: Callable[[Edge], None], prepare=None, on_clone=None,
                 on_edge_b: Optional[Callable[[Edge], None]] = None, new_layer_prob: float = 0.3,
                 explicit_prob: float = 0.4, pattern_b_prob: float = 0.15, on_state=None, star: bool = True,
-                star_explicit: int = 3) -> Dict[str, Any]:
+                star_explicit: int = 3, reject_prob: float = 0.12) -> Dict[str, Any]:
     """Seeded chain of clone-and-mutate steps with the library's own sampling interface."""
     import torch
 
@@ -1197,7 +1222,31 @@ def random_walk(subject: Subject, steps: int, seed: int, on_edge: Callable[[Edge
     if on_state is not None:
         on_state(m, None)
     stats = {"steps": 0, "explicit": 0, "pattern_b": 0, "methods": {}, "distinct_states": 0, "aborted": None, "recoveries": 0,
-             "star_edges": 0}
+             "star_edges": 0, "rejected_calls": 0}
+
+    def reject(child):
+        if rng.random() >= reject_prob:
+            return None
+        methods = [str(x) for x in child.mutation_methods]
+        # a network-level method (add/remove_latent_node) re-creates the network's children when its context closes, and the
+        # library supports further mutations only on a fresh clone after that (pattern B is informational for the same
+        # reason): the rejected call is therefore taken from the methods of the nested modules, or from a plain module's own
+        if any("." in x for x in methods):
+            methods = [x for x in methods if "." in x]
+        methods = [x for x in methods if "latent_node" not in x]  # (EvolvableMultiInput re-creates its extractors likewise)
+        if not methods:
+            return None
+        name = methods[int(rng.integers(len(methods)))]
+        stats["rejected_calls"] += 1
+        if rng.random() < 0.5:
+            return name, {"argument_of_another_module_type": 8}
+        ch = [a for a in arg_choices(child, name) if "hidden_layer" in a]
+        if ch:
+            a = dict(ch[int(rng.integers(len(ch)))])
+            a["hidden_layer"] = -9  # no such layer
+            return name, a
+        return name, {"argument_of_another_module_type": 8}
+
     seen = set()
 
     def pick(child):
@@ -1239,7 +1288,7 @@ def random_walk(subject: Subject, steps: int, seed: int, on_edge: Callable[[Edge
     for step in range(steps):
         if step % 8 == 7:
             gc.collect()  # evolvable modules are reference cycles; keep the worker's memory flat
-        e = drive_edge(subject, m, None, {}, prepare, on_clone, step=step, pick=pick)
+        e = drive_edge(subject, m, None, {}, prepare, on_clone, step=step, pick=pick, reject=reject)
         if e.clone_exc is None and e.called is None:
             stats["aborted"] = "no mutation methods"
             break
